@@ -239,11 +239,16 @@ func runC04(c *Ctx) {
 				// collect observations
 				var writes []mon.Access
 				var dataReads []uint16
+				// the instruction's own bytes: each read once, in any order (the order of
+				// accesses inside a Step is not part of this property)
 				nfetch := 0
+				var fetched [4]bool
 				for _, a := range mem.Log {
+					off := a.Addr - pre.PC
 					if a.Kind == 'W' {
 						writes = append(writes, a)
-					} else if nfetch < ilen && a.Addr == pre.PC+uint16(nfetch) {
+					} else if off < uint16(ilen) && !fetched[off] {
+						fetched[off] = true
 						nfetch++
 					} else {
 						dataReads = append(dataReads, a.Addr)
